@@ -197,6 +197,12 @@ func c12(c *Check) {
 	}
 	c.WhoMayCall("C12/who-writes-registry", c.F(agK+"Keeper.DeleteTokenPair"), "keeper.(Keeper).UpdateTokenPairERC20", "keeper.(Keeper).ConvertCoin", "keeper.(Keeper).ConvertERC20")
 
+	c.Rule("C12/registered-tests-read-their-own-index", "IsDenomRegistered answers from the by-denomination index at exactly the denomination it is given, IsERC20Registered from the by-contract index at exactly the address bytes: the uniqueness guards of the registration functions mean what their names say for every input (no resolver that guesses the kind of the token from its spelling)", 2)
+	ks := "store/prefix.NewStore(cosmos-sdk/types.(Context).KVStore($1, $0.storeKey), g:aggregate/types.%s)"
+	c.Spec("C12/registered-tests-read-their-own-index", Macros{}, FnSpec{Fn: agK + "Keeper.IsDenomRegistered",
+		Returns: []Ret{{Label: "has(by-denom index, denom)", Index: 0, Want: []string{"store/prefix.(Store).Has(" + fmt.Sprintf(ks, "KeyPrefixTokenPairByDenom") + ", $2)"}}}})
+	c.Spec("C12/registered-tests-read-their-own-index", Macros{}, FnSpec{Fn: agK + "Keeper.IsERC20Registered",
+		Returns: []Ret{{Label: "has(by-contract index, address bytes)", Index: 0, Want: []string{"store/prefix.(Store).Has(" + fmt.Sprintf(ks, "KeyPrefixTokenPairByERC20") + ", go-ethereum/common.(Address).Bytes($2))"}}}})
 	c.Rule("C12/id-depends-on", "the pair id hashes the contract address and the first denomination only (so functions changing either must re-index, see three-way-write)", 1)
 	for _, w := range c.P.StoreWrites() {
 		if strings.HasSuffix(funcName(w.Fn), "keeper.(Keeper).SetTokenPair") {
